@@ -10,7 +10,7 @@ for mp in sorted(glob.glob(os.path.join(HERE, "seeded", "*", "meta.json"))):
     for p, keys in sorted(det.items()):
         rs = sorted({k.split(" | ")[0] for k in keys if " | " in k})
         rules.append("%s: %s" % (p, ", ".join(rs) if rs else "(see meta.json)"))
-    rows.append((m["seed"], m["property"], m.get("summary", ""), "yes" if m.get("detected_by_target") else ("other check" if det else "**missed**"),
+    rows.append((m["seed"], m["property"], (m.get("summary", "") + " - needs: " + m.get("needs_to_manifest", "")).replace("|", "\\|"), "yes" if m.get("detected_by_target") else ("other check" if det else "**missed**"),
                  "; ".join(rules) if rules else "-"))
 out = ["| seed | property | change (what it needs to manifest) | caught by its property's check | checks / rules that fire |", "|---|---|---|---|---|"]
 for r in rows:
